@@ -197,6 +197,14 @@ fn ws() -> impl Strategy<Value = String> {
     prop_oneof![3 => Just(String::new()), 1 => Just(" ".to_string()), 1 => Just("\t".to_string()), 1 => Just("  \t ".to_string())]
 }
 
+/// well-formed lines only (constructed, not filtered)
+fn good_line() -> impl Strategy<Value = Line> {
+    prop_oneof![
+        12 => (0u8..8, 0u8..3, ws(), ws()).prop_map(|(idx, case_mode, lead, trail)| Line::Hash { idx, case_mode, lead, trail }),
+        3 => ws().prop_map(Line::Blank),
+    ]
+}
+
 fn line(fault_w: u32) -> impl Strategy<Value = Line> {
     prop_oneof![
         12 => (0u8..8, 0u8..3, ws(), ws()).prop_map(|(idx, case_mode, lead, trail)| Line::Hash { idx, case_mode, lead, trail }),
@@ -211,7 +219,7 @@ fn line(fault_w: u32) -> impl Strategy<Value = Line> {
 fn file_spec() -> impl Strategy<Value = FileSpec> {
     prop_oneof![
         // good files
-        5 => (proptest::collection::vec(line(0 + 1).prop_filter("good", |l| matches!(l, Line::Hash { .. } | Line::Blank(_))), 0..10), any::<bool>(), any::<bool>())
+        5 => (proptest::collection::vec(good_line(), 0..10), any::<bool>(), any::<bool>())
             .prop_map(|(lines, crlf, trailing_newline)| FileSpec { missing: false, lines, crlf, trailing_newline }),
         // possibly faulty files
         4 => (proptest::collection::vec(line(1), 0..10), any::<bool>(), any::<bool>())
